@@ -237,6 +237,14 @@ func runCheck(prop, tier, repo string, seed int, overlay map[string][]byte, repo
 	return exit
 }
 
+// trimMiddle keeps the head and the tail of a long text.
+func trimMiddle(s string, max int) string {
+	if len(s) <= max {
+		return s
+	}
+	return s[:max/2] + "\n... [" + fmt.Sprint(len(s)-max) + " bytes omitted] ...\n" + s[len(s)-max/2:]
+}
+
 var scratchOut bool
 
 func writeReplay(prop string, o *Obligation, eng *Engine) string {
@@ -261,7 +269,7 @@ func writeReplay(prop string, o *Obligation, eng *Engine) string {
 		"solver_output": o.Raw,
 		"model":      o.Model,
 		"replayed":   o.replayed,
-		"replay_log": o.replayLog,
+		"replay_log": trimMiddle(o.replayLog, 40000),
 		"replay_test": o.replayTest,
 	}
 	if !o.replayed {
